@@ -282,7 +282,8 @@ class Model(SOCModel):
                 self.dual = formula
                 return formula
 
-            if len(primal.qmat) == 0:
+            if len(primal.qmat) == 0 or dual_socp.linear.shape[0] == pvar_num:
+                # no second-order cone rows were eliminated from the dual
                 pxmat = primal.xmat
                 plmi = primal.lmi
             else:
